@@ -90,6 +90,7 @@ package gossip
 
 //@ iface (Watcher).OnJoin
 //@   acquires 30
+//@   requires[fresh-node] nodeID == gNode() ==> !wNode && !wHas && !wLeft && !wUnreach
 //@   modifies-all $wNode
 //@   ensures[fold] wNode == (old(wNode) || nodeID == gNode())
 //@ iface (Watcher).OnLeave
@@ -100,11 +101,13 @@ package gossip
 //@ iface (Watcher).OnUnreachable
 //@   acquires 30
 //@   requires[announced] nodeID == gNode() ==> wNode
+//@   requires[not-left] nodeID == gNode() ==> !wLeft
 //@   modifies-all $wUnreach
 //@   ensures[fold] wUnreach == (old(wUnreach) || nodeID == gNode())
 //@ iface (Watcher).OnReachable
 //@   acquires 30
 //@   requires[announced] nodeID == gNode() ==> wNode
+//@   requires[not-left] nodeID == gNode() ==> !wLeft
 //@   modifies-all $wUnreach
 //@   ensures[fold] wUnreach == (old(wUnreach) && nodeID != gNode())
 //@ iface (Watcher).OnUpsertKey
